@@ -680,7 +680,7 @@ def programs(tier):
     # executor + registrar + observer: state-graph coverage
     jobs.append((P("ret", ["ret"], ["done"]), True, 5000))
     jobs.append((P("raise", ["raise"], ["done"]), True, 5000))
-    jobs.append((P("raise", ["ret"], ["result_t"]), True, 8000))
+    jobs.append((P("raise", ["ret"], ["result"]), True, 8000))
     # two registrars (re-registration before / across / after completion): state-graph coverage
     for b in ("ret", "raise"):
         for pr in pairs:
@@ -690,7 +690,7 @@ def programs(tier):
             jobs.append((P(b, [], ["done", "result_t"]), False, 20000))
             for k in KINDS:
                 for o in (["done"], ["result_t"], ["result"]):
-                    if (b, k, o[0]) not in (("ret", "ret", "done"), ("raise", "raise", "done"), ("raise", "ret", "result_t")):
+                    if (b, k, o[0]) not in (("ret", "ret", "done"), ("raise", "raise", "done"), ("raise", "ret", "result")):
                         jobs.append((P(b, [k], o), True, 20000))
             for pr in itertools.product(KINDS, KINDS):
                 if not (b in ("ret", "raise") and pr in pairs):
@@ -723,7 +723,7 @@ class Main(pipeline.Stream):
     check_fn = "c16_check"
     extra_defs = "Open Scope nat_scope.\n"
     shard = 250
-    RECHECK = 8          # every RECHECK-th explored case is re-executed from its schedule (replay determinism, coverage)
+    RECHECK = 16         # every RECHECK-th explored case is re-executed from its schedule (replay determinism, coverage)
 
     def __init__(self):
         self.stats = {}
@@ -737,10 +737,13 @@ class Main(pipeline.Stream):
             key = "%s/%s/%s/%s" % (prog["body"], "+".join(prog["regs"]) or "-", "+".join(prog["obs"]) or "-",
                                    "pruned" if job[1] else "all-schedules")
             self.stats[key] = st
-            if not st.get("exhausted"):
+            if not st.get("exhausted") and not any(check_property(c, c["_obs"]) for c in cs):
+                # (a tree that violates the property may have more yield points than the budgets
+                # foresee: the violation found so far is reported; otherwise the claim of
+                # exhaustiveness would be false, so stop)
                 raise RuntimeError("exploration budget too small for %s: %r" % (key, st))
             cases.extend(cs)
-        n_rand = 400 if tier == "quick" else 20000
+        n_rand = 192 if tier == "quick" else 20000
         rjobs = [(random_programs(), n_rand // 16, rng.randrange(1 << 30)) for _ in range(16)]
         for cs, _ in parallel(_random_job, rjobs):
             cases.extend(cs)
